@@ -1150,9 +1150,16 @@ def R5(ctx: Ctx) -> RuleResult:
         for o in _subst_eval(ctx).run(pi, {'self': ss}, self_cls=se):
             for e in o.effects:
                 if isinstance(e, Call) and isinstance(e.func, Ext) and e.func.name == 'object.__setattr__' and len(e.args) == 3 and e.args[0] == ss and e.args[1] == Const('predicate'):
-                    v = e.args[2]
-                    if isinstance(v, Call) and call_name(v) == 'replace_var_reference' and call_recv(v) == Attr(ss, 'predicate') and v.args[0] == Attr(ss, 'alias') and isinstance(v.args[1], New) and v.args[1].cls == 'HplThisMessage':
-                        good = True
+                    # the new predicate, possibly chosen by a helper: the substitution, or the old predicate where there is no alias
+                    leaves_ok = True
+                    for g2, v in alternatives(e.args[2]):
+                        if isinstance(v, Call) and call_name(v) == 'replace_var_reference' and call_recv(v) == Attr(ss, 'predicate') and v.args[0] == Attr(ss, 'alias') and isinstance(v.args[1], New) and v.args[1].cls == 'HplThisMessage':
+                            good = True
+                        elif v == Attr(ss, 'predicate') and any(t == Attr(ss, 'alias') and pol is False for t, pol in norm_guards(tuple(o.guards) + tuple(g2))):
+                            pass
+                        else:
+                            leaves_ok = False
+                    good = good and leaves_ok
     (r.ok('HplSimpleEvent: predicate := predicate.replace_var_reference(alias, HplThisMessage())') if good else r.fail('HplSimpleEvent.__attrs_post_init__:normalise', "the event's own alias is not rewritten to the message itself at construction", se.where))
     # predicate-level replace_* delegate and rebuild with but
     pe = m.cls('HplPredicateExpression', 'R5')
